@@ -458,8 +458,7 @@ class ODataParser(Parser):
             # Very similar for CollectionLambdas:
             # We prefer the CollectionLambda to define its complete owner
             # instead of being a deeply nested attribute:
-            owner: ast.Identifier = p[1].owner
-            new_owner = ast.Attribute(p[0], owner.name)
+            new_owner = self._prepend_owner(p[0], p[1].owner)
             return ast.CollectionLambda(new_owner, p[1].operator, p[1].lambda_)
         else:
             return ast.Attribute(p[0], p[1].name)
@@ -660,6 +659,33 @@ class ODataParser(Parser):
     ####################################################################################
     # Utils
     ####################################################################################
+    def _prepend_owner(
+        self, root: ast.Identifier, path: Union[ast.Identifier, ast.Attribute]
+    ) -> ast.Attribute:
+        """
+        Puts ``root`` in front of an identifier or (left-nested) attribute, e.g.:
+        ``A`` and ``Attribute(Id(B), 'name')``
+        into
+        ``Attribute(Attribute(Id(A), 'B'), 'name')``
+
+        Args:
+            root: The identifier that owns ``path``.
+            path: The :class:`Identifier` or :class:`Attribute` to re-root.
+        Returns:
+            The transformed attribute.
+        """
+        names = []
+        while isinstance(path, ast.Attribute):
+            names.append(path.attr)
+            path = path.owner
+        names.append(path.name)
+
+        owner: Union[ast.Identifier, ast.Attribute] = root
+        for name in reversed(names):
+            owner = ast.Attribute(owner, name)
+
+        return owner  # type: ignore
+
     def _reverse_attributes(self, attr: ast.Attribute) -> ast.Attribute:
         """
         Transforms an attribute like:
